@@ -1,9 +1,11 @@
 use crate::core::*;
 
+pub mod c07;
 pub mod c12;
 
 pub fn dispatch(ctx: &mut Ctx) -> Result<(), Violation> {
     match ctx.id.as_str() {
+        "C07" => c07::run(ctx),
         "C12" => c12::run(ctx),
         other => {
             eprintln!("unknown property {other}");
@@ -14,6 +16,7 @@ pub fn dispatch(ctx: &mut Ctx) -> Result<(), Violation> {
 
 pub fn replay(v: &Violation) -> Result<(), String> {
     match v.property.as_str() {
+        "C07" => c07::replay(v),
         "C12" => c12::replay(v),
         other => Err(format!("no replay for {other}")),
     }
